@@ -126,6 +126,11 @@ func (ex *Exec) nativeFallback(name string, args []Val) (Val, bool) {
 	for i, a := range args {
 		gv, ok := toGo(a, ft.In(i))
 		if !ok {
+			// symbolic argument: let the caller interpret the function from SSA when its package
+			// is one of the interpreted ones (bytes, strings, unicode/utf8, ...), else give up
+			if ex.canInterpret != nil && ex.canInterpret(name) {
+				return nil, false
+			}
 			panic(unsupported{"native " + name + ": symbolic or unsupported argument"})
 		}
 		in[i] = gv
